@@ -51,11 +51,13 @@ CONSTANTS
 \* host -> renter messages of each exchange, in order
 Msgs(r) ==
     CASE r = "ReadSector"        -> <<"resp", "data">>     \* RPCReadSectorResponse, then DataLength raw bytes
+      [] r = "ReadUnaligned"     -> <<"resp", "data">>     \* RPCReadSector with an offset that is not leaf-aligned
       [] r = "WriteSector"       -> <<"resp">>
       [] r = "VerifySector"      -> <<"resp">>
       [] r = "SectorRoots"       -> <<"resp">>
       [] r = "AppendSectors"     -> <<"resp", "sig">>      \* ...Response, (renter signs), ...ThirdResponse
       [] r = "FreeSectors"       -> <<"resp", "sig">>
+      [] r = "FreeOutOfRange"    -> <<"resp", "sig">>      \* RPCFreeSectors with an index beyond the contract's sectors
       [] r = "FundAccounts"      -> <<"resp">>
       [] r = "ReplenishAccounts" -> <<"resp", "sig">>
       [] r = "ReplenishPools"    -> <<"resp", "sig">>
@@ -65,7 +67,13 @@ Msgs(r) ==
 \* client functions that return the host's answer verbatim: the statement makes no claim
 Informational == {"LatestRevision", "AccountBalance"}
 
-AllRPCs == {"ReadSector", "WriteSector", "VerifySector", "SectorRoots", "AppendSectors", "FreeSectors",
+\* requests the client function sends but an honest (reference) host refuses to serve: a read whose
+\* offset is not a multiple of the 64-byte leaf (only offset+length has to be aligned for the request
+\* to be sent); a free of a sector index the contract does not have (the client does not validate its
+\* own request).  HonestSucceeds does not apply; a host can answer them all the same.
+Unservable == {"ReadUnaligned", "FreeOutOfRange"}
+
+AllRPCs == {"ReadUnaligned", "FreeOutOfRange", "ReadSector", "WriteSector", "VerifySector", "SectorRoots", "AppendSectors", "FreeSectors",
             "FundAccounts", "ReplenishAccounts", "ReplenishPools", "LatestRevision", "AccountBalance"}
 
 Swap == "swapFromOtherExchange"
@@ -89,6 +97,12 @@ Catalog ==
     \cup RawInner("ReadSector", "resp")
     \cup E("ReadSector", "data", "Bytes", {"flip", "truncate"} \cup Other, "unbind")
     \cup E("ReadSector", "data", "Bytes", {"extend"}, "neutral")
+    \* ---- read at an unaligned offset: the host answers with the enclosing leaf-aligned range and its
+    \*      (valid) proof -- more and other bytes than the caller asked for
+    \cup E("ReadUnaligned", "resp", "All", {"otherRange"}, "unbind")
+    \* ---- free of a sector the contract does not have: the host answers with a valid proof of the OLD
+    \*      root for the in-range part of the request and some new root; nothing can be "the requested change"
+    \cup E("FreeOutOfRange", "resp", "All", {"otherRange"}, "unbind")
     \* ---- write: root computed locally and compared (rpc.go:540-560)
     \cup E("WriteSector", "resp", "Root", {"flip", Swap, "otherRoot"}, "unbind")
     \cup RawLast("WriteSector", "resp")
@@ -149,6 +163,7 @@ Catalog ==
 \* what the client functions verify (field granularity), read off rpc.go
 Checked ==
        {<<"ReadSector", f>> : f \in {"Proof", "DataLength", "Bytes", "All", "Raw"}}
+  \cup {<<"ReadUnaligned", "All">>, <<"FreeOutOfRange", "All">>}   \* INTENDED: rpc.go as written has no such checks (known findings)
   \cup {<<"WriteSector", f>> : f \in {"Root", "Raw"}}
   \cup {<<"VerifySector", f>> : f \in {"Proof", "Leaf", "All", "Raw"}}
   \cup {<<"SectorRoots", f>> : f \in {"Proof", "Roots", "HostSignature", "All", "Raw"}}
@@ -162,7 +177,7 @@ Checked ==
 Cat(r) == {c \in Catalog : c.rpc = r}
 F(c) == [msg |-> c.msg, field |-> c.field, how |-> c.how, k |-> 0]
 MsgSet(r) == {Msgs(r)[i] : i \in DOMAIN Msgs(r)}
-RawField(r, m) == IF r = "ReadSector" /\ m = "data" THEN "Bytes" ELSE "Raw"
+RawField(r, m) == IF r \in {"ReadSector", "ReadUnaligned"} /\ m = "data" THEN "Bytes" ELSE "Raw"
 
 \* Two faults of one plan must write disjoint parts of the exchange: distinct fields, where the
 \* composite faults write several fields ("All": every field of the message -- for a read also the
@@ -180,7 +195,8 @@ PairsC(r)  == UNION {{{c, d} : d \in {x \in Cat(r) : ~Conflict(c, x)}} : c \in C
 TriplesC(r) == UNION {{p \cup {e} : e \in {x \in Cat(r) : \A g \in p : ~Conflict(g, x)}} : p \in PairsC(r)}
 Pairs(r)   == {{F(c) : c \in p} : p \in PairsC(r)}
 Triples(r) == {{F(c) : c \in p} : p \in TriplesC(r)}
-Randoms(r) == {{[msg |-> m, field |-> RawField(r, m), how |-> "random", k |-> k]} : m \in MsgSet(r), k \in 1..NRandom}
+Randoms(r) == IF r \in Unservable THEN {} ELSE
+              {{[msg |-> m, field |-> RawField(r, m), how |-> "random", k |-> k]} : m \in MsgSet(r), k \in 1..NRandom}
 
 Plans(r) == {{}} \cup Singles(r)
                  \cup (IF MaxFaults >= 2 THEN Pairs(r) ELSE {})
@@ -205,7 +221,7 @@ ClassOf(r, f) ==
 Unbinds(r, p) == \E f \in p : ClassOf(r, f) = "unbind"
 
 \* the acceptance rule applied to the REAL outcome (Leg R, Leg T)
-MustOf(r, p) == IF p = {} THEN "ok"
+MustOf(r, p) == IF p = {} THEN (IF r \in Unservable THEN "any" ELSE "ok")
                 ELSE IF Unbinds(r, p) /\ r \notin Informational THEN "err"
                 ELSE "any"
 Allowed(r, p) == CASE MustOf(r, p) = "ok" -> {"ok"} [] MustOf(r, p) = "err" -> {"err"} [] OTHER -> {"ok", "err"}
@@ -237,7 +253,7 @@ Deliver ==
     /\ LET m  == Msgs(rpc)[pos]
            fs == {f \in plan : f.msg = m}
        IN  /\ act' = [op |-> "Deliver", msg |-> m, faults |-> fs]
-           /\ IF \E f \in fs : Detected(rpc, f)
+           /\ IF (\E f \in fs : Detected(rpc, f)) \/ (rpc \in Unservable /\ plan = {})   \* the honest host refuses
                 THEN outcome' = "err" /\ UNCHANGED <<pos, bound>>
                 ELSE IF pos = Len(Msgs(rpc))
                        THEN /\ outcome' = "ok"
@@ -263,7 +279,7 @@ TypeOK ==
 SuccessImpliesBound == (outcome = "ok" /\ rpc \notin Informational) => bound
 
 \* ... and the check cannot pass by the client rejecting everything
-HonestSucceeds == (outcome \in {"ok", "err"} /\ plan = {}) => outcome = "ok"
+HonestSucceeds == (outcome \in {"ok", "err"} /\ plan = {} /\ rpc \notin Unservable) => outcome = "ok"
 
 \* the abstract client obeys the acceptance rule it is judged by
 ObeysRule == outcome \in {"ok", "err"} => outcome \in Allowed(rpc, plan)
